@@ -25,7 +25,7 @@ func checkC10(c *Ctx) {
 		"legacy walker copies E unchanged. Not decided: float rounding and Duration(float64) truncation (sub-nanosecond), the real clock, " +
 		"math/rand's range."
 	r.Rule("R10.1", "effective TTL selection", 1)
-	r.Rule("R10.2", "jitter polynomial T + J·T·(r − 1/2) with one rand.Float64(); T exactly when jitter is disabled; default J=0.1 only when 0", 2)
+	r.Rule("R10.2", "jitter polynomial T + J·T·(r − 1/2) with one rand.Float64(); T exactly when jitter is disabled; defaults J=0.1 and TimeToLive=5m applied exactly when 0", 3)
 	r.Rule("R10.3", "expiry instant: E = now + ttl when ttl ≠ 0, else 0; stored by every Write; no write-back into the context", 4)
 	r.Rule("R10.4", "reads agree: expired ⇔ E≠0 ∧ E<now (all orderings of E, now, 0)", 3)
 	r.Rule("R10.5", "one instant, two views: accessors are tsTime(entry.E); tsTime∘ts = id; legacy walker copies E", 6)
@@ -118,7 +118,7 @@ func (c *Ctx) c10Jitter() {
 	} else if !hasViolation(r.Obls, "R10.2", "Trait.TTL") {
 		r.OK("R10.2", "Trait.TTL", fmt.Sprintf("%d jitter paths match T + J·T·(r − 1/2), %d plain paths return T", nJ, nPlain))
 	}
-	c.defaultsRule("R10.2", map[string]*big.Rat{"ExpirationJitter": big.NewRat(1, 10)})
+	c.defaultsRule("R10.2", map[string]*big.Rat{"ExpirationJitter": big.NewRat(1, 10), "TimeToLive": big.NewRat(5*60*1000000000, 1)})
 }
 
 // defaultsRule: in Trait.init (NewTrait) each listed config field is replaced by its documented default exactly when 0.
